@@ -1,5 +1,6 @@
 (* C18 driver: one case per line (format documented in harness/src/bin/c18.rs), prints
-     <model observation> \t <specification observation> \t <suffixed_dir_chosen: 0 | wat-dir | wasm-dir> \t <key_wf 0|1> \t <model detail>
+     <as-found model observation> \t <specification observation> \t <suffixed_dir_chosen: 0 | wat-dir | wasm-dir> \t <key_wf 0|1>
+     \t <detail> \t <REPAIRED model observation (resolve_one_fixed: what /repo does since d297b59)>
    Content ids are 10*k+variant; the library oracles are tabulated by variant (the harness asserts that the
    real libraries behave like this table on the content templates it writes):
      variant 0 binary component : wat -> same bytes      wit-file -> error
@@ -54,8 +55,9 @@ let handle = function
       let s = spec o_wat o_dir o_file wat fs cfg k in
       let dev = if not (suffixed_dir_chosen wat fs cfg k) then "0"
         else if wat && (match fs (suffixed cfg k s_wat) with Dir _ -> true | _ -> false) then "wat-dir" else "wasm-dir" in
+      let mf = resolve_one_fixed o_wat o_dir o_file wat fs cfg k in
       String.concat "\t" [show m; show s; dev; show_bool (key_wfb k);
-                          detail m ^ "/" ^ detail s]
+                          detail m ^ "/" ^ detail s ^ "/" ^ detail mf; show mf]
   | _ -> "BAD-LINE"
 
 let () = main handle
